@@ -27,7 +27,9 @@ use crate::{
     common::{catch, cov, Ctx, Samples},
     corpus::{self, Case, CorpusCfg, Universe},
     engine::{self, Exec, Row},
+    explorer::Chooser,
     graph_adapter::{GraphAdapter, V},
+    props::c02::PollBatcher,
     qast,
 };
 
@@ -46,13 +48,26 @@ pub fn check_case(ctx: &Ctx, uni: &Universe, case: &Case<'_>, c: &Counters, samp
     };
     c.cases.fetch_add(1, Ordering::Relaxed);
     let args_map: BTreeMap<String, FV> = case.args.clone();
-    // traced execution
+    // traced execution, under three adapter behaviours: strictly lazy, and order-preserving
+    // read-ahead of 2 / of everything *while being polled* (several contexts in flight when outcomes
+    // are recorded). Read-ahead at resolver-call time is deliberately not used: the replayer cannot
+    // follow an adapter that pulls input before it is polled, and the property does not quantify over
+    // adapters (observation recorded in DESIGN.md).
+    for batching in [0u8, 2, 3] {
+        check_traced(ctx, uni, case, c, samples, &direct, &args_map, batching);
+    }
+}
+
+#[allow(clippy::too_many_arguments)]
+fn check_traced(ctx: &Ctx, uni: &Universe, case: &Case<'_>, c: &Counters, samples: &Mutex<Samples>, direct: &[Row], args_map: &BTreeMap<String, FV>, batching: u8) {
+    let direct = direct.to_vec();
     let traced = catch(|| {
         let tracer = Rc::new(RefCell::new(Trace::<V>::new(case.cq.iq.ir_query.clone(), args_map.clone())));
-        let mut tap = Arc::new(AdapterTap::new(GraphAdapter::new(uni.world.clone(), case.ds.clone()), tracer));
+        let inner = PollBatcher { inner: GraphAdapter::new(uni.world.clone(), case.ds.clone()), chooser: Chooser::constant(batching) };
+        let tap = Arc::new(AdapterTap::new(inner, tracer));
         let it = interpret_ir(tap.clone(), case.cq.iq.clone(), engine::to_arc_args(case.args)).expect("arguments were accepted a moment ago");
         let rows: Vec<Row> = tap_results(tap.clone(), it).collect();
-        let trace = Arc::make_mut(&mut tap).clone().finish();
+        let trace = Arc::try_unwrap(tap).ok().expect("the tracing adapter is still referenced after the query finished").finish();
         (rows, trace)
     });
     let (rows_t, trace) = match traced {
@@ -60,6 +75,7 @@ pub fn check_case(ctx: &Ctx, uni: &Universe, case: &Case<'_>, c: &Counters, samp
         Err(p) => {
             let mut rep = case.replay();
             rep["observed"] = p.to_json();
+            rep["adapter_read_ahead"] = json!(batching);
             rep["expected"] = json!({"rows": engine::rows_json(&direct)});
             ctx.fail(&format!("tracing-{}", p.key()), "executing through the tracing adapter panicked", rep);
             return;
@@ -109,7 +125,7 @@ pub fn check_case(ctx: &Ctx, uni: &Universe, case: &Case<'_>, c: &Counters, samp
         c.replays.fetch_add(1, Ordering::Relaxed);
         if let Err(p) = catch(|| assert_interpreted_results(&t2, &direct, true)) {
             let mut rep = case.replay();
-            rep["observed"] = json!({"format": fmt, "replay_panic": p.to_json()});
+            rep["observed"] = json!({"format": fmt, "adapter_read_ahead": batching, "replay_panic": p.to_json()});
             rep["expected"] = json!({"rows": engine::rows_json(&direct)});
             ctx.fail("replay-differs", "replaying the deserialized trace did not reproduce the recorded rows", rep);
         }
@@ -160,7 +176,7 @@ pub fn run(ctx: &Ctx) -> ! {
     let mut c = cov();
     c.insert("evaluations".into(), json!(counters.replays.load(Ordering::Relaxed)));
     c.insert("distinct_nontrivial".into(), json!(distinct.lock().unwrap().len()));
-    c.insert("rule".into(), json!("for every (query, dataset, arguments) case of two enumerated spaces: direct rows == rows through AdapterTap + tap_results (sequence); one ProduceQueryResult op per row; the trace through RON (compact and pretty) is equal to the recorded one; assert_interpreted_results(deserialized trace, rows, complete = true) does not panic (the reader adapter has no data source). evaluations = replays; non-trivial = distinct (query, dataset) pairs with at least one edge"));
+    c.insert("rule".into(), json!("for every (query, dataset, arguments) case of two enumerated spaces and each of three recorded adapter behaviours (strictly lazy; order-preserving read-ahead of 2; read-ahead of everything): direct rows == rows through AdapterTap + tap_results (sequence); one ProduceQueryResult op per row; the trace through RON (compact and pretty) is equal to the recorded one; assert_interpreted_results(deserialized trace, rows, complete = true) does not panic (the reader adapter has no data source). evaluations = replays; non-trivial = distinct (query, dataset) pairs with at least one edge"));
     c.insert("cases".into(), json!(counters.cases.load(Ordering::Relaxed)));
     c.insert("trace_ops_recorded".into(), json!(counters.ops.load(Ordering::Relaxed)));
     c.insert("cases_with_rows".into(), json!(counters.nonempty.load(Ordering::Relaxed)));
